@@ -187,6 +187,25 @@ class Checker(object):
                 outcome(lambda: const_probe(env, kind, v))
                 continue
             f = rng.choice(pool)
+            if r < 0.3:
+                # a call that fails half-way: an ill-typed substitution
+                # (the last symbol met gets a value of another type)
+                fv = sorted(f.get_free_variables(),
+                            key=lambda x: x.symbol_name())
+                fv = [x for x in fv if not x.symbol_type().is_function_type()]
+                if fv:
+                    mgr = env.formula_manager
+                    x = rng.choice(fv)
+                    bad = mgr.Int(7) if not x.symbol_type().is_int_type() \
+                        else mgr.TRUE()
+                    m = {x: bad}
+                    for y in fv[:2]:
+                        if y is not x:
+                            m[y] = y
+                    o = outcome(lambda: f.substitute(m))
+                    self.rep.count('history_failing_calls'
+                                   if o[0] != 'ok' else 'history_calls')
+                    continue
             q = rng.choice(names)
             o = outcome(lambda: self.Q[q][0](env, f))
             self.rep.count('history_calls')
